@@ -68,6 +68,23 @@ func main() {
 			}
 		}
 		return
+	case "callers":
+		p, err := Load(nil, nil)
+		if err != nil {
+			os.Exit(2)
+		}
+		for _, ref := range os.Args[2:] {
+			fn := p.Fn(ref)
+			if fn == nil {
+				fmt.Println("UNRESOLVED", ref)
+				continue
+			}
+			n := p.CHA().Nodes[fn]
+			for _, e := range n.In {
+				fmt.Printf("%s <- %s (synthetic=%q) site=%v\n", ref, e.Caller.Func.String(), e.Caller.Func.Synthetic, e.Site)
+			}
+		}
+		return
 	case "dump":
 		p, err := Load(nil, nil)
 		if err != nil {
